@@ -183,6 +183,8 @@ def run(tier, seed, replay=None):
             ck.note('rejection at event %d not reproduced on re-run (neither alone nor after its process history)' % idx)
     if len(v['rejected']) > 8:
         ck.note('%d further rejected records not individually confirmed' % (len(v['rejected']) - 8))
+    if not replay and not ck.violations:
+        vlib.concurrent_pass(ck, wd, 'Trace_Scalar', 'Trace_Scalar.cfg', lambda cp, tp: [exe, cp, tp], write_cases, cases, 'scalar operations', max_cases=3000)
     ck.cov['cases'] = len(cases)
     ck.cov['exhaustive'] = False
     return ck.finish()
